@@ -113,4 +113,26 @@ structure CivilTime where
 def CivilTime.IsValid (t : CivilTime) : G Bool :=
   pure (decide (0 ≤ t.Hour ∧ t.Hour < 24 ∧ 0 ≤ t.Minute ∧ t.Minute < 60))
 
+/-- `float64` values of the translated code are small exact quotients (`float64(month) / 3`, `float64(len) / float64(n)` below 2⁵³); modelled as rationals. -/
+structure F64 where
+  num : Int
+  den : Int
+  deriving Repr, Inhabited
+def f64OfInt (x : Int) : F64 := ⟨x, 1⟩
+def fdiv (a b : F64) : F64 := ⟨a.num * b.den, a.den * b.num⟩
+/-- `math.Ceil` -/
+def mathCeil (a : F64) : F64 := ⟨-((-a.num) / a.den), 1⟩
+/-- `int(f)` for an integral value -/
+def intOfF64 (a : F64) : Int := Int.tdiv a.num a.den
+
+
+/-- `make([]T, n)`: `n` zero values; run-time panic for a negative length -/
+def makeSlice {α} [Inhabited α] (n : Int) : G (List α) :=
+  if n < 0 then throw .panic else pure (List.replicate n.toNat default)
+/-- `xs[i] = v`: run-time panic when out of range -/
+def setIdx {α} (xs : List α) (i : Int) (v : α) : G (List α) :=
+  if i < 0 ∨ i ≥ xs.length then throw .panic else pure (xs.set i.toNat v)
+/-- the values of `i` in `for i := lo; i < hi; i++` -/
+def intRange (lo hi : Int) : List Int := (List.range (hi - lo).toNat).map (fun (k : Nat) => lo + (k : Int))
+
 end KlogV.Go
